@@ -247,6 +247,33 @@ func ruleCtx(c *Ctx) {
 		c.check(okSel && usesCtx, "execShell:CommandContext", es.Pos(), "child processes are created with exec.CommandContext(p.ctx, ...) exactly when the context flag is set", "execShell does not select exec.CommandContext(p.ctx, ...) under the context flag: a cancelled run would keep waiting for its child")
 	}
 
+	// (4b) the cancellation behaviour of a child (Cancel, WaitDelay) is configured only in the process helper
+	nCmd := 0
+	for _, fn := range c.srcFuncs("interp") {
+		fn := fn
+		allInstrs(fn, func(in ssa.Instruction) {
+			st, ok := in.(*ssa.Store)
+			if !ok {
+				return
+			}
+			f, x := fieldOfAddr(st.Addr)
+			if f == nil || !isNamed(x.Type(), "os/exec", "Cmd") {
+				return
+			}
+			switch f.Name() {
+			case "Cancel", "WaitDelay", "SysProcAttr":
+				nCmd++
+				key := "cmd-field:" + fnKey(fn) + ":" + f.Name()
+				if es != nil && fn == es && f.Name() == "WaitDelay" {
+					c.ok(key, in.Pos(), "WaitDelay is set once, in the process helper")
+				} else {
+					c.bad(key, in.Pos(), "%s assigns exec.Cmd.%s: how a child reacts to cancellation is decided only in the process helper; overriding it here can make a cancelled run wait for the child (or leave it running)", fnKey(fn), f.Name())
+				}
+			}
+		})
+	}
+	c.atLeast("assignments of exec.Cmd cancellation fields", nCmd, 1)
+
 	// (5) system(): after a failed wait the context error is preferred
 	cb := c.ssaFunc("interp", "interp.callBuiltin")
 	if cb != nil {
